@@ -113,8 +113,10 @@ class Job:
         ctx.solver_s = 0.0
 
     # -- obligations
-    def claim(self, r, name, term, cex=None, oracle=None, extra=(), sample=None):
-        """prove  pc & side & axioms |= term  on path r.  cex(model) -> oracle args for replay."""
+    def claim(self, r, name, term, cex=None, oracle=None, extra=(), sample=None, soft=False):
+        """prove  pc & side & axioms |= term  on path r.  cex(model) -> oracle args for replay.
+        soft=True: the assertion is stricter than the property statement (a heuristic tripwire); if it fails its candidate
+        is replayed like any other, but when nothing reproduces it is only noted, not counted as undecided."""
         ctx = r.ctx if hasattr(r, "ctx") else r
         Ctx.cur = ctx
         t0 = time.time()
@@ -138,6 +140,8 @@ class Job:
         secs = round(time.time() - t0, 3)
         self._absorb(ctx)
         rec = dict(name=name, verdict=verdict, secs=secs)
+        if soft:
+            rec["soft"] = True
         if isinstance(term, bool):
             if term:
                 rec["trivial"] = True      # a concrete outcome of a symbolic path (no solver query needed)
@@ -386,6 +390,9 @@ def main(check_module, argv=None):
         print("  what: %s -- %s" % (c["why"], short(c["replay"].get("detail"), 300)))
 
     # an undischarged obligation whose candidate did not reproduce (or has none) is inconclusive
+    soft_unreproduced = [o for o in failed + undecided if o.get("soft") and (o["job"], o["name"]) not in explained_keys]
+    failed = [o for o in failed if not (o.get("soft") and (o["job"], o["name"]) not in explained_keys)]
+    undecided = [o for o in undecided if not o.get("soft")]
     unexplained = [o for o in failed if (o["job"], o["name"]) not in explained_keys]
     # an undecided obligation whose candidate reproduced (a violation, or a listed known finding) is accounted for
     undecided = [o for o in undecided if (o["job"], o["name"]) not in explained_keys]
@@ -427,6 +434,7 @@ def main(check_module, argv=None):
             candidates_replayed=replayed, replays_reproduced=len(violations) + len(known_hits),
             known_findings_seen=sorted(printed), unreproduced_candidates=[c["why"] for c in unreproduced][:10],
             unexplained_failed_obligations=[dict(job=o["job"], name=o["name"]) for o in unexplained][:20],
+            soft_tripwires_not_reproduced=[dict(job=o["job"], name=o["name"]) for o in soft_unreproduced][:20],
             solver="z3 %s" % z3.get_version_string(), source_digest=loader.source_digest(),
             samples=samples, notes=notes[:20],
             trusted_base=getattr(mod, "TRUSTED", []),
